@@ -45,35 +45,36 @@ def outdir(pid):
 
 # ------------------------------------------------------------------------------------------------
 # harness
-_built = False
+_built = set()
 
 
-def build_harness():
-    """cargo build of the harness: path dependency on /repo, so the current working tree of
-    /repo (with the verif-hooks feature on) is what gets compiled."""
-    global _built
-    if _built:
+def build_harness(name):
+    """cargo build of one harness binary: path dependency on /repo, so the current working tree of
+    /repo (with the verif-hooks feature on) is what gets compiled. VERIF_TARGET_DIR overrides the
+    target directory (development only)."""
+    if name in _built:
         return
     t = time.time()
-    lock = os.path.join(HARNESS, "Cargo.lock")
     env = dict(os.environ, CARGO_NET_OFFLINE="true")
-    p = subprocess.run(["cargo", "build", "--release", "--offline", "--bins"], cwd=HARNESS, env=env,
+    if os.environ.get("VERIF_TARGET_DIR"):
+        env["CARGO_TARGET_DIR"] = os.environ["VERIF_TARGET_DIR"]
+    p = subprocess.run(["cargo", "build", "--release", "--offline", "--bin", name], cwd=HARNESS, env=env,
                        stdout=subprocess.PIPE, stderr=subprocess.STDOUT, text=True)
     if p.returncode != 0:
         log(p.stdout[-6000:])
         raise ToolError("harness build failed (does /repo still compile with --features verif-hooks?)")
-    log(f"[build] harness built in {time.time()-t:.1f}s")
-    _built = True
+    log(f"[build] harness bin {name} built in {time.time()-t:.1f}s")
+    _built.add(name)
 
 
 def hbin(name):
-    return os.path.join(HARNESS, "target", "release", name)
+    return os.path.join(os.environ.get("VERIF_TARGET_DIR") or os.path.join(HARNESS, "target"), "release", name)
 
 
 def run_harness(name, args, timeout=3600, stdin=None, env=None):
     """Runs a harness binary. A non-zero exit of the harness is a tool error: the binaries report
     what they saw (panics of the code under test included) as data."""
-    build_harness()
+    build_harness(name)
     e = dict(os.environ)
     if env:
         e.update(env)
